@@ -1,13 +1,15 @@
 /-
 Impl layer: byte-level marshalling AND unmarshalling of the WKD-IBE objects (src/wkdibe/marshal.cpp) and the
-length arithmetic of include/wkdibe/api.hpp, as functions on byte lists built from the point encoders /
+length arithmetic of include/wkdibe/api.hpp (and, last section, of the LQ-IBE objects: src/lqibe/marshal.cpp,
+include/lqibe/api.hpp), as functions on byte lists built from the point encoders /
 decoders of Impl/Encode.lean.  Hand-written; tied to /repo by the correspondence check: the judge
-(Driver/Judge5.lean `wk_m`, Driver/Judge6.lean `wk_um` / `lq_um`) executes exactly these definitions against the
+(Driver/Judge5.lean `wk_m`, Driver/Judge6.lean `wk_um` / `lq_m` / `lq_um`) executes exactly these definitions against the
 real code, and the theorems (Proofs/MarshalProofs.lean, Proofs/EncodeProofs.lean, Properties/C15*.lean) are about
 exactly these definitions.  No Mathlib.
 -/
 import JediVerif.Impl.Encode
 import JediVerif.Spec.Wkdibe
+import JediVerif.Impl.Lqibe
 
 namespace Jedi.Impl
 open Jedi.Wk
@@ -225,5 +227,67 @@ against the real code IS the object of the C15b theorems. -/
 def canonicalDecoders (pair : G1Pt → G2Pt → Fq12) : Decoders :=
   { dec1 := decodeCanonical opsFq (fun p => Pt.smulFast r p == .inf) (Pt.isOnCurve g1B),
     dec2 := decodeCanonical opsFq2 (fun p => Pt.smulFast r p == .inf) (Pt.isOnCurve g2B), pair := pair }
+
+/-! ## LQ-IBE objects (src/lqibe/marshal.cpp, `marshal` / `unmarshal` / `marshalledLength` of include/lqibe/api.hpp)
+
+Object-level models, one per C++ method, statement by statement; executed by the judge (`Driver/Judge6.lean`, cases
+`lq_m`, `lq_um`, `lq_msk`) against the real code, and the objects of `Proofs/LqMarshalProofs.lean` /
+`Properties/C15c.lean`.
+  * `Params { G2 p; G2 sp; }` — `ParamsMarshalled<compressed> { Encoding<G2Affine> p; Encoding<G2Affine> sp; }`: the
+    two elements (made affine by `from_projective`) encoded one after the other, `p` first.  Model object: `Lq.Params G2Pt`.
+  * `ID { G1Affine q; }`, `SecretKey { G1Affine sq; }` — one encoded G1 element; `Ciphertext { G2Affine rp; }` — one
+    encoded G2 element.  Model objects: the element itself.
+  * `MasterKey { Scalar s; }` — `memcpy` of the `BigInt<256>` (32 bytes, limbs least significant first, every
+    supported target little-endian: the 32-byte little-endian image of s), the same in both "forms"; `unmarshal` is
+    the inverse `memcpy` and returns `true` whatever the bytes and whatever `checked`.  Model object: the value of s.
+`unmarshal` does not receive a length (the C wrappers' callers supply `marshalledLength` bytes): the readers consume
+a prefix and fail (`none`) on a buffer that is too short, as the WKD-IBE readers do. -/
+
+abbrev LParams := Lq.Params G2Pt
+
+/-- `Params::marshalledLength<compressed> = 2 * Encoding<G2Affine, compressed>::size`. -/
+def lqParamsLen (comp : Bool) : Nat := 2 * g2Size comp
+/-- `ID::marshalledLength<compressed> = Encoding<G1Affine, compressed>::size`. -/
+def lqIdLen (comp : Bool) : Nat := g1Size comp
+/-- `MasterKey::marshalledLength<compressed> = sizeof(Scalar)`. -/
+def lqMskLen (_comp : Bool) : Nat := 32
+/-- `SecretKey::marshalledLength<compressed> = Encoding<G1Affine, compressed>::size`. -/
+def lqSkLen (comp : Bool) : Nat := g1Size comp
+/-- `Ciphertext::marshalledLength<compressed> = Encoding<G2Affine, compressed>::size`. -/
+def lqCtLen (comp : Bool) : Nat := g2Size comp
+
+/-- `Params::marshal<compressed>`: `encoded->p.encode(paffine); encoded->sp.encode(spaffine);`. -/
+def lqMarshalParams (comp : Bool) (pp : LParams) : List UInt8 := encG2 comp pp.p ++ encG2 comp pp.sp
+/-- `ID::marshal<compressed>`: `encoded->encode(this->q)`. -/
+def lqMarshalId (comp : Bool) (q : G1Pt) : List UInt8 := encG1 comp q
+/-- `MasterKey::marshal<compressed>`: `memcpy(buffer, &this->s, sizeof(Scalar))`. -/
+def lqMarshalMsk (_comp : Bool) (s : Nat) : List UInt8 := toBytesLE 32 s
+/-- `SecretKey::marshal<compressed>`: `encoded->encode(this->sq)`. -/
+def lqMarshalSk (comp : Bool) (sq : G1Pt) : List UInt8 := encG1 comp sq
+/-- `Ciphertext::marshal<compressed>`: `encoded->encode(this->rp)`. -/
+def lqMarshalCt (comp : Bool) (rp : G2Pt) : List UInt8 := encG2 comp rp
+
+/-- `Params::unmarshal<compressed>(buffer, checked)`: decode `encoded->p`, on failure return false; decode
+`encoded->sp`, on failure return false; return true.  (`D` carries `checked`.) -/
+def lqUnmarshalParams (D : Decoders) (comp : Bool) (bs : List UInt8) : Option LParams :=
+  match readG2 D comp bs with
+  | none => none
+  | some (p, r1) =>
+  match readG2 D comp r1 with
+  | none => none
+  | some (sp, _) => some { p := p, sp := sp }
+
+/-- `ID::unmarshal<compressed>`: `return encoded->decode(this->q, checked)`. -/
+def lqUnmarshalId (D : Decoders) (comp : Bool) (bs : List UInt8) : Option G1Pt := (readG1 D comp bs).map (·.1)
+/-- `SecretKey::unmarshal<compressed>`: `return encoded->decode(this->sq, checked)`. -/
+def lqUnmarshalSk (D : Decoders) (comp : Bool) (bs : List UInt8) : Option G1Pt := (readG1 D comp bs).map (·.1)
+/-- `Ciphertext::unmarshal<compressed>`: `return encoded->decode(this->rp, checked)`. -/
+def lqUnmarshalCt (D : Decoders) (comp : Bool) (bs : List UInt8) : Option G2Pt := (readG2 D comp bs).map (·.1)
+/-- `MasterKey::unmarshal<compressed>(buffer, checked)`: `memcpy(&this->s, buffer, sizeof(Scalar)); return true;` —
+no decoder, no validation: every 32-byte string is accepted, the scalar may be ≥ r. -/
+def lqUnmarshalMsk (_comp : Bool) (bs : List UInt8) : Option Nat :=
+  match takeN 32 bs with
+  | none => none
+  | some (c, _) => some (ofBytesLE c)
 
 end Jedi.Impl
